@@ -63,9 +63,21 @@ def verify_function(src, con, models, axioms=(), prefix=None, prune=True):
     a = fd.args
     allnames = [x.arg for x in a.posonlyargs + a.args + a.kwonlyargs]
     for n in allnames:
-        if n not in args:
+        if n not in args and n not in con.closure:
             raise OutOfSubset(f"contract {con.qual} does not give a type for parameter {n}")
     st.env = dict(args)
+    for n, ty in con.closure.items():
+        if isinstance(ty, tuple) and ty[0] == "nested":
+            from .core import Closure
+            nfd = src.find(con.file, ty[1])
+            clo = Closure(nfd, st.env, None)
+            clo.file, clo.dynamic_env = con.file, True
+            st.env[n] = clo
+        else:
+            st.env[n] = args[n] = sym_arg(n, ty)
+            v = args[n]
+            if isinstance(v, Sym) and is_ref_ty(v.ty) and v.ty[1] in SHAPES:
+                st.assume(isinstance_term(v.t, v.ty[1]))
     eng.fn_args = args
     entry_heap = st.heap.copy()
     for k in HEAP_SORTS:
